@@ -305,6 +305,12 @@ Definition apply_conv (id : Z) (v : val) (r : row) : res val :=
     if py_eq v (vint 2) || py_eq v (VStr [120]) then Err (UserErr 3) else Ok (VSeq false [VStr (zs "ok"); v])
   else if id =? 5 then Ok v
   else if id =? 6 then Ok (VSeq false [v; vint (zlen r)])                                           (* pass_row: (v, len(row)) *)
+  else if id =? 7 then                                                      (* {0:'zero', 1:'one', 'b':'bee', None:'none'}[v] *)
+    if py_eq v (vint 0) then Ok (VStr (zs "zero"))
+    else if py_eq v (vint 1) then Ok (VStr (zs "one"))
+    else if py_eq v (VStr [98]) then Ok (VStr (zs "bee"))
+    else if py_eq v VNone then Ok (VStr (zs "none"))
+    else match v with VSeq true _ => Err TypeErr | _ => Err KeyErr end
   else Err OtherErr.
 
 Inductive conv := CFn (id : Z) | CDict (d : list (val * val)) | CNone.
